@@ -281,7 +281,7 @@ class RealSolve(Stream):
             g = sorted({1.0 + rng.random() for _ in range(rng.randint(2, 4))})
             if len(g) < 2:
                 continue
-            out.append({"kind": rng.choice(["wg_modes", "bs_wg", "ps"]), "grid": g,
+            out.append({"kind": rng.choice(["wg_modes", "bs_wg", "ps", "bs_partial"]), "grid": g,
                         "modes": rng.sample(MODES, rng.randint(1, 2)),
                         "mids": [[k, 0.5] for k in range(len(g) - 1)]})
         return out
@@ -297,7 +297,8 @@ class RealSolve(Stream):
             lk.Pin("i0").put(bs.pin["a0"])
             lk.Pin("i1").put(bs.pin["a1"])
             lk.Pin("o0").put(wg.pin["b0"])
-            lk.Pin("o1").put(bs.pin["b1"])
+            if d["kind"] != "bs_partial":       # bs_partial: one port stays unmapped (matrix larger than the pin table)
+                lk.Pin("o1").put(bs.pin["b1"])
         return sol.solve(wl=list(d["grid"])), "wl"
 
     def run(self, d):
@@ -305,9 +306,11 @@ class RealSolve(Stream):
         try:
             mod, par = self.build(d)
             pins = sorted(mod.pin_dic.items(), key=lambda kv: kv[1])
-            dd = {"pins": [[p.basename, p.mode_name] for p, _ in pins], "idx": [i for _, i in pins],
+            sel = [i for _, i in pins]          # the rows/columns the result's pins address (all of them unless a port is unmapped)
+            dd = {"pins": [[p.basename, p.mode_name] for p, _ in pins], "idx": list(range(len(pins))),
                   "params": [par], "pts": [[x] for x in d["grid"]],
-                  "S": [[[[z.real, z.imag] for z in row] for row in np.asarray(mod.S)[k]] for k in range(len(d["grid"]))],
+                  "S": [[[[z.real, z.imag] for z in row] for row in np.asarray(mod.S)[k][np.ix_(sel, sel)]]
+                        for k in range(len(d["grid"]))],
                   "emap": {}, "mm": None, "mids": d["mids"]}
             inner = RoundTrip()
             # export the real result, not a rebuilt one
